@@ -5,6 +5,7 @@ import (
 	"fmt"
 	"math/rand"
 	"strings"
+	"time"
 
 	"github.com/la5nta/wl2k-go/fbb"
 
@@ -32,6 +33,10 @@ type PeerWorld struct {
 	Plan              b2fref.PeerPlan
 	Secure            func(fbb.Address) (string, error) // secure login callback (nil = none registered)
 	Tag               string
+	// Status (optional) is registered as the station's StatusUpdater; WriteDelay paces the link
+	// (per write, [station->peer, peer->station]).
+	Status     fbb.StatusUpdater
+	WriteDelay [2]time.Duration
 }
 
 var AnswerTokens = map[byte][]string{
@@ -266,6 +271,9 @@ func (w *PeerWorld) NewLibSession(h fbb.MBoxHandler) *fbb.Session {
 	if w.Secure != nil {
 		s.SetSecureLoginHandleFunc(w.Secure)
 	}
+	if w.Status != nil {
+		s.SetStatusUpdater(w.Status)
+	}
 	return s
 }
 
@@ -288,7 +296,7 @@ func (w *PeerWorld) Run(record bool, edits [2][]vpipe.Edit) *PeerRun {
 	lg := &mem.Log{}
 	st, truth := w.NewStation(lg)
 	sess := w.NewLibSession(st.AsHandler())
-	ea, eb, link := vpipe.New(vpipe.Plan{Seed: w.Plan.Seed, Seg: w.Seg, CutDir: vpipe.NoCut, DetectDeadlock: true, Edits: edits}, record)
+	ea, eb, link := vpipe.New(vpipe.Plan{Seed: w.Plan.Seed, Seg: w.Seg, CutDir: vpipe.NoCut, DetectDeadlock: true, Edits: edits, WriteDelay: w.WriteDelay}, record)
 	pr := &PeerRun{Station: st, Truth: truth}
 	done := make(chan struct{}, 1)
 	go runExchange(sess, ea, &pr.Lib, done)
